@@ -15,7 +15,7 @@ RULE = ("synthetic trajectories of 0..60 rows with generated non-decreasing dist
         "arbitrary or strictly single-peaked heights, arbitrary speeds and flags; 10 queries per trajectory placed "
         "below / exactly on / between / beyond recorded values in any of the 10 distance units; plus real fire() "
         "trajectories; non-trivial = >= 3 rows and at least one query strictly inside the recorded span; distinct = "
-        "distinct (rows, queries) dicts")
+        "distinct (rows, queries) dicts; queries also NaN and +-inf (no row is at least NaN)")
 ASSUMPTIONS = ["reference = sequential scan with the same comparison predicate (`value >= query` in the query's unit)",
                "negative times / deviations are rejected by the code and not part of the statement",
                "which of several equal-time duplicates the nearest-time look-up returns is not asserted",
